@@ -71,14 +71,23 @@ Configs ==
   \cup { [form |-> f, k |-> 0, na |-> 0, use |-> "print", nest |-> "none", special |-> "unknown", host |-> "entry"] : f \in {"alias", "from"} }
   (* the caller's variables carry the parameters' names: arguments are evaluated in the caller's scope, all of them before any
      parameter is bound *)
-  \cup { [form |-> "alias", k |-> 1, na |-> 1, use |-> "print", nest |-> "none", special |-> "rebind", host |-> "entry"] }
+  \cup { [form |-> "alias", k |-> 1, na |-> 1, use |-> "print", nest |-> "none", special |-> "rebind", host |-> "entry"],
+         [form |-> "alias", k |-> 1, na |-> 1, use |-> "print", nest |-> "none", special |-> "nested", host |-> "entry"] }
   \cup { [form |-> f, k |-> 2, na |-> 2, use |-> u, nest |-> n, special |-> "swap", host |-> "entry"] : f \in Forms, u \in {"print", "macroarg"}, n \in {"none", "loop"} }
 
 (* a second library whose macros have the same names and different bodies: importing it under an alias or name that is
    already bound replaces the binding *)
 Lib2 == <<MacroS("m1", <<"p1">>, <<Text("n1("), PrintS(NameE("p1")), Text(",)"), PrintS(CallE("nul", <<StrE("lib2")>>))>>)>>
+(* a library whose macros are written inside the bodies of other tags: still macros of that template for import and from *)
+Lib3 == <<IfS(BoolE(TRUE), <<MacroS("m1", <<"p1">>, <<Text("i1("), PrintS(NameE("p1")), Text(",)"), PrintS(CallE("nul", <<StrE("lib3")>>))>>)>>, <<>>, FALSE),
+          BlockS("holder", <<MacroS("m2", <<"p1", "p2">>, <<Text("b2("), PrintS(NameE("p1")), Text(","), PrintS(NameE("p2")), Text(",)")>>)>>),
+          ForS("", "v", ArrE(<<>>), NoE, <<MacroS("m3", <<>>, <<Text("f3()")>>)>>, <<>>, FALSE)>>
 Program(c) ==
-  CASE c.special = "rebind" ->
+  CASE c.special = "nested" ->
+         <<ImportS(StrE("lib3"), "L"), FromS(StrE("lib3"), << <<"m1", "m1">>, <<"m2", "q2">>, <<"m3", "m3">> >>), Text("^"),
+           PrintS(AttrCall(NameE("L"), "m1", <<IntE(1)>>)), PrintS(CallE("m1", <<IntE(2)>>)), PrintS(AttrCall(NameE("L"), "m2", <<IntE(3), IntE(4)>>)),
+           PrintS(CallE("q2", <<IntE(5)>>)), PrintS(CallE("m3", <<>>)), PrintS(AttrCall(NameE("L"), "m3", <<>>)), Text("$")>>
+    [] c.special = "rebind" ->
          <<Text("^"), FromS(StrE("lib"), << <<"m1", "m1">> >>), PrintS(CallE("m1", <<IntE(11)>>)),
            FromS(StrE("lib2"), << <<"m1", "m1">> >>), PrintS(CallE("m1", <<IntE(11)>>)), Text("|"),
            ImportS(StrE("lib"), "L"), PrintS(AttrCall(NameE("L"), "m1", <<IntE(11)>>)),
@@ -102,7 +111,7 @@ CallStmts(c) == IF c.special = "outer" THEN UseOf(c, CallM(c.form, "outer", Args
 Templates(c) == ("t" :> IF c.host = "childblock"
                         THEN Prelude(c.form) \o <<Text("^"), BlockS("body", <<Text("base")>>), Text("$")>>
                         ELSE Program(c))
-                @@ ("lib" :> Defs("lib")) @@ ("lib2" :> Lib2)
+                @@ ("lib" :> Defs("lib")) @@ ("lib2" :> Lib2) @@ ("lib3" :> Lib3)
                 @@ (IF c.host = "entry" THEN <<>>
                     ELSE ("top" :> CASE c.host = "include" -> <<IncludeS(StrE("t"), NoE, FALSE)>>
                                      [] c.host = "embed" -> <<EmbedS(StrE("t"), NoE, FALSE, <<>>)>>
@@ -110,7 +119,8 @@ Templates(c) == ("t" :> IF c.host = "childblock"
                                      [] OTHER -> <<ExtendsS(StrE("t"))>>))
 Entry(c) == IF c.host = "entry" THEN "t" ELSE "top"
 Expected(c) ==
-  CASE c.special = "rebind" -> "^m1(11,)n1(11,)|m1(11,)n1(11,)|m1(1,)m1(2,)n1(1,)n1(2,)m1(1,)m1(2,)$"
+  CASE c.special = "nested" -> "^i1(1,)i1(2,)b2(3,4,)b2(5,,)f3()f3()$"
+    [] c.special = "rebind" -> "^m1(11,)n1(11,)|m1(11,)n1(11,)|m1(1,)m1(2,)n1(1,)n1(2,)m1(1,)m1(2,)$"
     [] c.special = "outer" -> "^" \o UseExp(c, "<" \o Result(1, IF c.na >= 1 THEN 1 ELSE 0) \o ">") \o "$"
     [] c.special = "unknown" -> "^"
     [] c.special = "swap" -> IF c.nest = "loop" THEN "^" \o UseExp(c, "m2(1,x,)") \o UseExp(c, "m2(2,y,)") \o "$"
